@@ -46,6 +46,8 @@ def make(cfg):
 
 def make_grid(g):
     kind, n, t_end = g["kind"], g["n"], g["t_end"]
+    if g.get("origin"):
+        return g["origin"] + make_grid({k_: v_ for k_, v_ in g.items() if k_ != "origin"})
     if kind == "uniform":
         return np.linspace(0.0, t_end, n)
     if kind == "sqrt":
@@ -156,8 +158,8 @@ def check_interp(cfg):
     elif mode == "after_density":
         r.recovery_factor(density=True)
     f = r.recovery_factor_interpolator()
-    rec = np.asarray(r.recovery)
     expected = r.recovery_factor(density=(mode == "after_density"))
+    rec = np.asarray(getattr(r, "recovery", expected))  # the cache attribute is an implementation detail: compared only if present
     span = t[-1] - t[0]
     d_nodes = float(np.max(np.abs(f(t) - expected)))
     before = np.asarray(f(np.array([t[0] - 1e-9 * (1 + abs(t[0])), t[0] - 0.5 * span - 1.0, -1e6])))
@@ -244,10 +246,11 @@ def run(ctx):
     for cls in classes:
         for j in range(len(press) * len(nxs)):
             emit("before_simulate", base(cls, j) | {"nx": nxs[j // len(press)]})
-    # interpolator
+    # interpolator (the time origin is arbitrary: grids that start before zero, straddle it, or start late)
     j = 0
     for cls in classes:
-        for g in grids(2 if quick else 8):
+        gl = grids(2 if quick else 8)
+        for g in gl + [dict(gl[0], origin=-16.0), dict(gl[1], origin=-0.5 * gl[1]["t_end"]), dict(gl[2], origin=1024.0)]:
             for mode in ("direct", "after_rf", "after_density"):
                 for sched in ((None,) if cls == "IdealReservoir" else (None, "ramp")):
                     j += 1
